@@ -6,9 +6,18 @@
 #include "message/Message.h"
 #include "vsym.h"
 extern "C" {
-unsigned wl_total(void); unsigned wl_full(void); unsigned wl_nvals(void); unsigned wl_pristine(void);
+unsigned wl_total(void); unsigned wl_full(void); unsigned wl_nvals(void); unsigned wl_pristine(void); unsigned wl_concrete_strings(void);
 void wl_encode(const unsigned char * V, unsigned char * b);
+typedef struct { const char * name; unsigned kind, tc, n, voff; int lens; int subs; } WLField;
+typedef struct { int what_off; unsigned what; unsigned nfields; unsigned first; } WLMsg;
+const void * wl_fields_ptr(void); const void * wl_msgs_ptr(void); const void * wl_lens_ptr(void); const void * wl_subs_ptr(void); unsigned wl_nmsgs_fn(void);
 }
+#define wl_fields ((const WLField *) wl_fields_ptr())
+#define wl_msgs ((const WLMsg *) wl_msgs_ptr())
+#define wl_lens ((const unsigned *) wl_lens_ptr())
+#define wl_subs ((const int *) wl_subs_ptr())
+#define wl_nmsgs wl_nmsgs_fn()
+enum { WK_BOOL, WK_INT8, WK_INT16, WK_INT32, WK_INT64, WK_FLOAT, WK_DOUBLE, WK_POINT, WK_RECT, WK_STRING, WK_RAW, WK_MESSAGE };
 using namespace muscle;
 #define WL_MAXVALS 96
 extern "C" void harness_msg_parse(void)
@@ -26,8 +35,184 @@ extern "C" void harness_msg_parse(void)
    if (wl_pristine()) CHECK(fs == T, "FlattenedSize() of the parsed Message equals the input length");
    uint8 * out = newnothrow_array(uint8, fs); ASSUME(out != NULL);
    m.FlattenToBytes(out, fs);
-   if ((wl_pristine())&&(fs == T)) for (unsigned i=0; i<T; i++) CHECK(out[i] == buf[i], "re-flattened byte equals the reference encoding");
+   if ((wl_pristine())&&(fs == T))
+   {
+      // bool items are canonicalised by the reader (any non-zero byte is true and is written back as 1); every other byte must come back unchanged
+      unsigned char canon[160]; unsigned char Vc[WL_MAXVALS]; for (unsigned i=0; i<nv; i++) Vc[i] = V[i];
+      for (unsigned mi=0; mi<wl_nmsgs; mi++) for (unsigned fi=0; fi<wl_msgs[mi].nfields; fi++) {const WLField * f = &wl_fields[wl_msgs[mi].first+fi]; if (f->kind == WK_BOOL) for (unsigned i=0; i<f->n; i++) Vc[f->voff+i] = (V[f->voff+i] != 0) ? 1 : 0;}
+      wl_encode(Vc, canon);
+      for (unsigned i=0; i<T; i++) CHECK(out[i] == canon[i], "re-flattened byte equals the (bool-canonicalised) reference encoding");
+   }
    for (unsigned i=0; (i<fs)&&(i<128); i++) verif_observe(out[i]);
    verif_observe(st.IsOK()); verif_observe(fs);
+   VERIF_REACHED();
+}
+
+static inline uint16 V16(const unsigned char * p) {return (uint16)((uint16)p[0] | ((uint16)p[1] << 8));}
+static inline uint32 V32(const unsigned char * p) {return (uint32)p[0] | ((uint32)p[1] << 8) | ((uint32)p[2] << 16) | ((uint32)p[3] << 24);}
+static inline uint64 V64(const unsigned char * p) {return (uint64)V32(p) | ((uint64)V32(p+4) << 32);}
+static inline float VF(const unsigned char * p) {const uint32 u = V32(p); float f; memcpy(&f, &u, 4); return f;}
+static inline double VD(const unsigned char * p) {const uint64 u = V64(p); double f; memcpy(&f, &u, 8); return f;}
+static inline uint32 F32(float f) {uint32 u; memcpy(&u, &f, 4); return u;}
+static inline uint64 D64(double f) {uint64 u; memcpy(&u, &f, 8); return u;}
+// string content byte at V offset (off): a job constant when the layout was generated with concrete_strings (see lib/wire.py), else the symbolic payload byte
+static inline unsigned char StrByte(const unsigned char * V, unsigned off) {return wl_concrete_strings() ? (unsigned char)(97 + (off % 26)) : V[off];}
+
+// builds message (mi) of the shape tables through the public Add* API, every item value taken from V
+static void Build(Message & m, unsigned mi, const unsigned char * V)
+{
+   const WLMsg * M = &wl_msgs[mi];
+   m.what = (M->what_off >= 0) ? V32(V + M->what_off) : M->what;
+   for (unsigned fi=0; fi<M->nfields; fi++)
+   {
+      const WLField * f = &wl_fields[M->first + fi];
+      const unsigned char * p = V + f->voff;
+      unsigned o = 0;
+      for (unsigned i=0; i<f->n; i++)
+      {
+         status_t r;
+         switch(f->kind)
+         {
+            case WK_BOOL:   r = m.AddBool(f->name, p[i] != 0); break;
+            case WK_INT8:   r = m.AddInt8(f->name, (int8) p[i]); break;
+            case WK_INT16:  r = m.AddInt16(f->name, (int16) V16(p+2*i)); break;
+            case WK_INT32:  r = m.AddInt32(f->name, (int32) V32(p+4*i)); break;
+            case WK_INT64:  r = m.AddInt64(f->name, (int64) V64(p+8*i)); break;
+            case WK_FLOAT:  r = m.AddFloat(f->name, VF(p+4*i)); break;
+            case WK_DOUBLE: r = m.AddDouble(f->name, VD(p+8*i)); break;
+            case WK_POINT:  r = m.AddPoint(f->name, Point(VF(p+8*i), VF(p+8*i+4))); break;
+            case WK_RECT:   r = m.AddRect(f->name, Rect(VF(p+16*i), VF(p+16*i+4), VF(p+16*i+8), VF(p+16*i+12))); break;
+            case WK_STRING:
+            {
+               const unsigned l = wl_lens[f->lens+i]; char tmp[8]; for (unsigned j=0; j<l; j++) tmp[j] = (char) StrByte(V, f->voff+o+j); tmp[l] = 0;
+               verif_strlen_hint((uint8_t *) tmp, l);
+               r = m.AddString(f->name, tmp); o += l;
+            }
+            break;
+            case WK_RAW: {const unsigned l = wl_lens[f->lens+i]; r = m.AddData(f->name, f->tc, p+o, l); o += l;} break;
+            case WK_MESSAGE:
+            {
+               MessageRef sub = GetMessageFromPool(0); ASSUME(sub() != NULL);
+               Build(*sub(), (unsigned) wl_subs[f->subs+i], V);
+               r = m.AddMessage(f->name, sub);
+            }
+            break;
+            default: break;
+         }
+         CHECK(r.IsOK(), "Add* succeeds");
+      }
+   }
+}
+// every item of message (mi) read back through the public Find* API equals the value in V (bit patterns for floating point)
+static void CheckValues(const Message & m, unsigned mi, const unsigned char * V)
+{
+   const WLMsg * M = &wl_msgs[mi];
+   CHECK(m.what == ((M->what_off >= 0) ? V32(V + M->what_off) : M->what), "what code");
+   CHECK(m.GetNumNames() == M->nfields, "field count");
+   for (unsigned fi=0; fi<M->nfields; fi++)
+   {
+      const WLField * f = &wl_fields[M->first + fi];
+      const unsigned char * p = V + f->voff;
+      uint32 tc = 0, ni = 0;
+      CHECK(m.GetInfo(f->name, &tc, &ni).IsOK() && tc == f->tc && ni == f->n, "field present with its type code and item count");
+      unsigned o = 0;
+      for (unsigned i=0; i<f->n; i++)
+      {
+         switch(f->kind)
+         {
+            case WK_BOOL:   {bool v=false;  CHECK(m.FindBool(f->name, i, v).IsOK() && v == (p[i] != 0), "bool value");} break;
+            case WK_INT8:   {int8 v=0;      CHECK(m.FindInt8(f->name, i, v).IsOK() && (uint8) v == p[i], "int8 value");} break;
+            case WK_INT16:  {int16 v=0;     CHECK(m.FindInt16(f->name, i, v).IsOK() && (uint16) v == V16(p+2*i), "int16 value");} break;
+            case WK_INT32:  {int32 v=0;     CHECK(m.FindInt32(f->name, i, v).IsOK() && (uint32) v == V32(p+4*i), "int32 value");} break;
+            case WK_INT64:  {int64 v=0;     CHECK(m.FindInt64(f->name, i, v).IsOK() && (uint64) v == V64(p+8*i), "int64 value");} break;
+            case WK_FLOAT:  {float v=0;     CHECK(m.FindFloat(f->name, i, v).IsOK() && F32(v) == V32(p+4*i), "float bit pattern");} break;
+            case WK_DOUBLE: {double v=0;    CHECK(m.FindDouble(f->name, i, v).IsOK() && D64(v) == V64(p+8*i), "double bit pattern");} break;
+            case WK_POINT:  {Point v;       CHECK(m.FindPoint(f->name, i, v).IsOK() && F32(v.x()) == V32(p+8*i) && F32(v.y()) == V32(p+8*i+4), "point value");} break;
+            case WK_RECT:   {Rect v;        CHECK(m.FindRect(f->name, i, v).IsOK() && F32(v.left()) == V32(p+16*i) && F32(v.top()) == V32(p+16*i+4) && F32(v.right()) == V32(p+16*i+8) && F32(v.bottom()) == V32(p+16*i+12), "rect value");} break;
+            case WK_STRING:
+            {
+               const String * sp = NULL; const unsigned l = wl_lens[f->lens+i];
+               CHECK(m.FindString(f->name, i, &sp).IsOK() && sp != NULL, "string found");
+               if (sp) {CHECK(sp->Length() == l, "string length"); for (unsigned j=0; j<l; j++) CHECK((unsigned char)(*sp)[j] == StrByte(V, f->voff+o+j), "string byte");}
+               o += l;
+            }
+            break;
+            case WK_RAW:
+            {
+               const void * d = NULL; uint32 nb = 0; const unsigned l = wl_lens[f->lens+i];
+               if (l == 0) break;   // Message::FindData reports B_TYPE_MISMATCH for an empty ByteBuffer by design (the C++ API does not hand out zero-length items); count and re-serialisation are checked
+               CHECK(m.FindData(f->name, f->tc, i, &d, &nb).IsOK() && nb == l, "blob found with its length");
+               if ((d)&&(nb == l)) for (unsigned j=0; j<l; j++) CHECK(((const uint8 *)d)[j] == p[o+j], "blob byte");
+               o += l;
+            }
+            break;
+            case WK_MESSAGE:
+            {
+               ConstMessageRef sub; CHECK(m.FindMessage(f->name, i, sub).IsOK() && sub() != NULL, "sub-message found");
+               if (sub()) CheckValues(*sub(), (unsigned) wl_subs[f->subs+i], V);
+            }
+            break;
+            default: break;
+         }
+      }
+   }
+}
+static void CanonicalV(unsigned char * V)
+{
+   // bool payload bytes must be 0/1 for the writers (they canonicalise)
+   for (unsigned mi=0; mi<wl_nmsgs; mi++) for (unsigned fi=0; fi<wl_msgs[mi].nfields; fi++) {const WLField * f = &wl_fields[wl_msgs[mi].first+fi]; if (f->kind == WK_BOOL) for (unsigned i=0; i<f->n; i++) ASSUME(V[f->voff+i] <= 1);}
+}
+
+// C01 + C08 (writer and reader): API -> bytes == reference encoding, size exact; bytes -> equal Message, values bit-identical, re-serialisation byte-identical
+extern "C" void harness_msg_build(void)
+{
+   unsigned char V[WL_MAXVALS]; const unsigned nv = wl_nvals(), L = wl_full();
+   for (unsigned i=0; i<nv; i++) V[i] = nondet_u8();
+   CanonicalV(V);
+   unsigned char ref[160]; wl_encode(V, ref);
+   Message m; Build(m, 0, V);
+   const uint32 fs = m.FlattenedSize();
+   CHECK(fs == L, "FlattenedSize() equals the reference size");
+   uint8 * out = newnothrow_array(uint8, L); ASSUME(out != NULL);
+   if (fs == L)
+   {
+      m.FlattenToBytes(out, fs);
+      for (unsigned i=0; i<L; i++) {CHECK(out[i] == ref[i], "flattened byte equals the reference encoding"); verif_observe(out[i]);}
+      Message n;
+      CHECK(n.UnflattenFromBytes(out, fs).IsOK(), "its own bytes are accepted");
+      CheckValues(n, 0, V);
+      CHECK(n == m, "the parsed Message compares equal to the original");
+      CHECK(n.FlattenedSize() == fs, "same size after the round trip");
+      uint8 * out2 = newnothrow_array(uint8, L); ASSUME(out2 != NULL);
+      n.FlattenToBytes(out2, fs);
+      for (unsigned i=0; i<L; i++) CHECK(out2[i] == out[i], "re-serialisation is byte-identical");
+   }
+   VERIF_REACHED();
+}
+// C08 (reader against the reference bytes) + values
+extern "C" void harness_msg_parse_ref(void)
+{
+   unsigned char V[WL_MAXVALS]; const unsigned nv = wl_nvals(), T = wl_total();
+   for (unsigned i=0; i<nv; i++) V[i] = nondet_u8();
+   uint8 * buf = newnothrow_array(uint8, T ? T : 1); ASSUME(buf != NULL);
+   wl_encode(V, buf);
+   Message m;
+   CHECK(m.UnflattenFromBytes(buf, T).IsOK(), "the reference encoding is accepted");
+   CheckValues(m, 0, V);
+   VERIF_REACHED();
+}
+
+// the writer alone (C08: API -> bytes == reference; C01: size exact)
+extern "C" void harness_msg_flatten(void)
+{
+   unsigned char V[WL_MAXVALS]; const unsigned nv = wl_nvals(), L = wl_full();
+   for (unsigned i=0; i<nv; i++) V[i] = nondet_u8();
+   CanonicalV(V);
+   unsigned char ref[160]; wl_encode(V, ref);
+   Message m; Build(m, 0, V);
+   const uint32 fs = m.FlattenedSize();
+   CHECK(fs == L, "FlattenedSize() equals the reference size");
+   uint8 * out = newnothrow_array(uint8, L); ASSUME(out != NULL);
+   if (fs == L) {m.FlattenToBytes(out, fs); for (unsigned i=0; i<L; i++) {CHECK(out[i] == ref[i], "flattened byte equals the reference encoding"); verif_observe(out[i]);}}
    VERIF_REACHED();
 }
